@@ -353,7 +353,11 @@ def main():
     out.append('Definition gen_takes_flag (t : tool) : bool :=\n  match t with %s end.' %
                ' | '.join('%s => %s' % (tool, coq_bool(takes[tool])) for tool, _ in MODULES))
     out.append('Definition tbl : table := Table gen_prog_of %s gen_takes_flag.' % coq_list(order))
-    write_if_changed('GitCfg.v', '\n'.join(out) + '\n')
+    text = '\n'.join(out) + '\n'
+    if len(sys.argv) == 3 and sys.argv[1] == '--out':      # private copy for the correspondence run (harness/props/c18.py)
+        open(sys.argv[2], 'w').write(text)
+    else:
+        write_if_changed('GitCfg.v', text)
 
 if __name__ == '__main__':
     try:
